@@ -16,7 +16,9 @@ threads may interleave with — for ALL sets of threads and ALL schedules:
   every thread's program order (so no torn state, no lost update, and the result is one of the
   results of "the same operations run one at a time");
 * `no_deadlock_single_lock_per_op`: a program whose sections take at most one lock is never stuck
-  and every execution has exactly `totalSteps` steps;
+  and every execution has exactly `totalSteps` steps; `no_deadlock_ordered_locks`: the same progress
+  for nested locks acquired in rank order; `slots_disjoint_writes`: goroutines that write only
+  their own slot (fetch.go's fork/join) leave the sequential result;
 * `once_single_init`: any number of concurrent `once.Do` calls run exactly one initialiser, once;
 * `excl_create_distinct_names`: `k` concurrent `newTempFile` loops return pairwise distinct names,
   none of which existed before, existing files keep their contents, and a loop gives up only when
@@ -27,7 +29,7 @@ threads may interleave with — for ALL sets of threads and ALL schedules:
 **What ties this to pprof.**  The per-run obligations at the end are evaluated by `decide` over
 `Gen/LockFacts.lean`, which tools/extract/lockfacts.go REGENERATES from /repo's current source on
 every run: every syntactic access site of the guarded variables is dominated by its guard
-(`all_sites_guarded`), no function acquires a second guard while holding one (`no_nested_locks`),
+(`all_sites_guarded`), nested acquisitions follow a lock hierarchy (`lock_order_acyclic`),
 newTempFile opens with `O_CREATE|O_EXCL` and retries on EEXIST (`tempfile_excl`), every goroutine
 is joined by a WaitGroup before its results are read (`goroutines_joined`), and the copy-on-write
 `binrep` is written only while fresh (`immutable_written_only_fresh`).
@@ -130,6 +132,58 @@ theorem no_deadlock_single_lock_per_op {σ : Type} (prog : List (Thread σ)) (hs
   intro hterm
   have : cfgSize c'.ts = 0 := cfgSize_terminated hterm
   omega
+
+/-- **Lock hierarchy ⇒ no deadlock.**  Sections may take several (nested) locks; if every section
+acquires them in strictly increasing `rank`, then after any schedule either every thread has
+finished or some thread can take a step; and (for every program) a schedule is never longer than
+`totalSteps prog`.  `no_deadlock_single_lock_per_op` is the special case of at most one lock. -/
+theorem no_deadlock_ordered_locks {σ : Type} (rank : Nat → Nat) (prog : List (Thread σ))
+    (ho : OrderedLocks rank prog) (mem0 : Mem σ) (sched : List Nat) (c' : Config σ)
+    (log : List (Nat × Section σ)) (hrun : exec (initial prog mem0) sched = some (c', log)) :
+    (c'.terminated = false → canStep c' = true) ∧ sched.length ≤ totalSteps prog := by
+  have hord : OrdCfg rank (initial prog mem0) := by
+    intro i t hi
+    simp only [initial, List.getElem?_map] at hi
+    cases hp : prog[i]? with
+    | none => rw [hp] at hi; cases hi
+    | some th =>
+      rw [hp] at hi; cases hi
+      exact ho th (List.mem_of_getElem? hp)
+  have hsize : cfgSize (initial prog mem0).ts = totalSteps prog := by
+    simp [cfgSize, initial, totalSteps, List.map_map, Function.comp_def, tSize, restSize]
+  have hlen := exec_length hrun
+  rw [hsize] at hlen
+  exact ⟨progress_ordered (ordCfg_exec hord hrun), by omega⟩
+
+/-- **Fork/join with one result slot per goroutine** (fetch.go: `go func(s *profileSource){…}(&sources[i])`,
+then `wg.Wait()`): if goroutine `i` only ever writes slot `i` — with or without locks — then in
+every terminated execution slot `v` holds exactly what goroutine `v` running alone would have left
+there, and slots without a goroutine are untouched. -/
+theorem slots_disjoint_writes {σ : Type} (prog : List (Thread σ))
+    (hown : ∀ (i : Nat) (t : Thread σ), prog[i]? = some t → ∀ s ∈ t, ∀ a ∈ s.body, a.var = i)
+    (mem0 : Mem σ) (sched : List Nat) (c' : Config σ) (log : List (Nat × Section σ))
+    (hrun : exec (initial prog mem0) sched = some (c', log)) (hterm : c'.terminated = true) (v : Nat) :
+    c'.mem v = match prog[v]? with
+               | some t => runSerial t mem0 v
+               | none => mem0 v := by
+  have ho : OwnSlot (initial prog mem0).ts := by
+    intro i t hi a ha
+    simp only [initial, List.getElem?_map] at hi
+    cases hp : prog[i]? with
+    | none => rw [hp] at hi; cases hi
+    | some th =>
+      rw [hp] at hi; cases hi
+      simp only [remaining, List.mem_flatMap] at ha
+      rcases ha with ⟨s, hs, has⟩
+      exact hown i th hp s hs a has
+  rw [exec_slots ho hrun hterm v]
+  unfold slotFinal
+  simp only [initial, List.getElem?_map]
+  cases hp : prog[v]? with
+  | none => rfl
+  | some th =>
+    simp only [Option.map_some, remaining]
+    rw [actsOn_flatMap, runSerial_apply]
 
 /-- thread 0 takes mutex 0 then 1, thread 1 takes 1 then 0 -/
 def abba : List (Thread Unit) := [[⟨[0, 1], []⟩], [⟨[1, 0], []⟩]]
@@ -281,10 +335,12 @@ theorem all_sites_guarded : allSitesOk guards sites = true ∧ allGuardsUsed gua
   decide
 
 open PV.Gen.LockFacts in
-/-- No function of profile/, internal/driver/, internal/binutils/ acquires a mutex or enters a
-`Once` while holding another one (directly, through callees, or across these packages): the
-hypothesis of `no_deadlock_single_lock_per_op`. -/
-theorem no_nested_locks : nested = [] := by decide
+/-- Wherever a function of profile/, internal/driver/, internal/binutils/ acquires a mutex or enters a
+`Once` while holding another one (directly, through callees, or across these packages), the inner
+guard has a strictly higher rank in the regenerated rank table: the nesting relation is acyclic — the
+hypothesis `OrderedLocks` of `no_deadlock_ordered_locks`.  (On the pinned tree plus fixes there is
+one nesting: `editSettings` holds `settingsMu` and reads the option store under `currentMu`.) -/
+theorem lock_order_acyclic : lockOrderOk lockRank nestedEdges = true := by decide
 
 open PV.Gen.LockFacts in
 /-- newTempFile opens with `O_CREATE|O_EXCL` and retries on EEXIST: the step relation of
